@@ -380,6 +380,9 @@ def run_case(ctx, sb, forms, fid, outcome, mode, pre):
     else:
         ctx.count("model-answered")
         cm = canon_model(m)
+        if outcome["kind"] == "sleep":
+            # the stand-in may be killed by the shortened watchdog before it copied the file it was shown
+            ci["seen"] = cm["seen"] = "not compared"
         if cm != ci:
             diff = [k for k in ci if ci[k] != cm[k]]
             ctx.mismatch("main_cli/convert run vs Validator machine: " + ",".join(diff), case,
@@ -521,7 +524,7 @@ def explore(ctx, factor, bs):
             for enk in (False, True):
                 args_case(ctx, skip, odk, enk)
     # (b) cleaner, function level
-    n_clean = ctx.pick(2500, 120000) * min(factor, 4)
+    n_clean = ctx.pick(2500, 120000) * min(factor, 3)
     for i in range(n_clean):
         cleaner_case(ctx, gen_stderr(rng, p_odd=0.0))
     # directed shapes behind the guards of the cleaner theorems (known findings C18-F1, C18-F2)
